@@ -792,6 +792,8 @@ func (p *Peer) CloneDurable(n int) *Peer {
 		}
 	}
 	q.Caches.Restore(data)
+	// the clone's own effect log starts with what it was built from, so that it can be cloned in turn
+	q.Effects = append([]Effect{}, effs[:n]...)
 	return q
 }
 
